@@ -62,9 +62,9 @@ def install_stubs(capacity=None):
   return hsm, ao
 
 
-def make(host, live_spy=False, live_trace=False):
+def make(host, live_spy=False, live_trace=False, capacity=None):
   """returns (chart object, spy_lines, trace_lines) - callbacks collect live output"""
-  hsm, ao = install_stubs()
+  hsm, ao = install_stubs(capacity)
   spy_lines, trace_lines = [], []
   if host == 0:
     c = hsm.HsmEventProcessor()
